@@ -1,6 +1,9 @@
 (* C07 — Failed tests are retried as configured: count, stop on success, backoff.
-   Statements only; proofs are in Proofs/Backoff.v. Durations are N nanoseconds. *)
-From NextestModel Require Import Base.Str Model.Backoff Model.DelayWait Proofs.Backoff Proofs.DelayWait.
+   Statements only; proofs are in Proofs/{Backoff,RetryResolve,DelayWait,DelayTie}.v. Durations are
+   N nanoseconds. *)
+From NextestModel Require Import Base.Str Model.Clocks Model.UnitTimers Model.Overrides Model.Backoff
+  Model.RetryResolve Model.DelayWait Proofs.Backoff Proofs.RetryResolve Proofs.DelayProps
+  Proofs.DelayWait Proofs.DelayTie Proofs.DelayTieCert gen.GenPauseTable.
 Open Scope N_scope.
 
 (* The attempt loop of run_test_instance, for every pass/fail pattern [outcome], every policy
@@ -106,16 +109,60 @@ Theorem C07_jitter_strict_before_rounding : forall d n m, valid_sample (n, m) = 
 Proof. exact jitter_factor_strict. Qed.
 Print Assumptions C07_jitter_strict_before_rounding.
 
-(* --retries / NEXTEST_RETRIES: the forced policy replaces the test's own policy (count and
-   delays): the test's policy has no influence, and the run is that of the forced policy. *)
-Theorem C07_cli_replaces :
-  forall (R : Type) (succ : R -> bool) fp s1 s2 outcome accept js,
-    run_test_instance R succ (Some fp) s1 outcome accept js =
-    run_test_instance R succ (Some fp) s2 outcome accept js /\
-    run_test_instance R succ (Some fp) s1 outcome accept js =
-    run_test_instance R succ None fp outcome accept js.
-Proof. exact cli_replaces_both. Qed.
-Print Assumptions C07_cli_replaces.
+(* --retries N / NEXTEST_RETRIES=N (the command line first, the environment when the command line
+   gives none: [clap_retries]). Whatever the configuration -- any files, profiles, override lists,
+   selected profile, platforms -- says about the test, i.e. for every policy [own_policy dec c t]
+   it could have, and for every pass/fail pattern: the unit makes m = min(first passing attempt,
+   N + 1) attempts, numbered 1..m, none after a passing one, and *every* attempt starts with a
+   delay of 0 -- the configured delays, backoff and jitter are gone. (dec: the deserialization
+   of a resolved `retries` value, outside the model.) *)
+Theorem C07_forced_replaces_policy :
+  forall (dec : option sval -> policy) (R : Type) (succ : R -> bool) cli env n c t outcome accept js,
+    clap_retries cli env = Some n -> (forall k, accept k = true) ->
+    let m := first_pass R succ (n + 1) outcome in
+    let '(l, e) := run_configured dec R succ cli env c t outcome accept js in
+    e = Finished /\
+    N.of_nat (length l) = m /\ 1 <= m /\ m <= n + 1 /\
+    (forall i, 1 <= i -> i < m -> succ (outcome i) = false) /\
+    (succ (outcome m) = true \/ m = n + 1) /\
+    map at_no l = nrange 1 (N.to_nat m) /\
+    map at_result l = map outcome (nrange 1 (N.to_nat m)) /\
+    (forall a, In a l -> at_delay_before a = 0).
+Proof. exact forced_run. Qed.
+Print Assumptions C07_forced_replaces_policy.
+
+(* ... for arbitrary handshake answers too (cancellation): the run is literally the run of the
+   policy "N retries, no delay", whatever the test's own policy. *)
+Theorem C07_forced_is_plain :
+  forall (dec : option sval -> policy) (R : Type) (succ : R -> bool) cli env n c t outcome accept js,
+    clap_retries cli env = Some n ->
+    run_configured dec R succ cli env c t outcome accept js =
+    run_test_instance R succ None (new_without_delay n) outcome accept js.
+Proof. exact forced_is_plain. Qed.
+Print Assumptions C07_forced_is_plain.
+
+(* Nothing forced: the unit runs the policy C06 resolves -- the first override, in the documented
+   order, that matches the test by platform and filter and sets `retries`, else the selected
+   profile's value, else the default profile's -- with its count and delays (C07_attempt_count). *)
+Theorem C07_unforced_policy :
+  forall (dec : option sval -> policy) c t,
+    wf_file (rc_repo c) = true -> forallb wf_file (rc_tools c) = true ->
+    resolved_policy dec None None c t =
+    dec match find (fun o => applies (rc_env c) (rc_bp c) t o && is_some (data_get SRetries (ov_data o)))
+                   (ordered_overrides (rc_repo c) (rc_tools c) (rc_sel c)) with
+        | Some o => data_get SRetries (ov_data o)
+        | None => sel_then_default (custom_profile (rc_builtin c) (rc_repo c) (rc_tools c) (rc_sel c))
+                                   (default_profile (rc_builtin c) (rc_repo c) (rc_tools c)) k_retries
+        end.
+Proof. exact resolved_unforced. Qed.
+Print Assumptions C07_unforced_policy.
+
+Theorem C07_unforced_run :
+  forall (dec : option sval -> policy) (R : Type) (succ : R -> bool) c t outcome accept js,
+    run_configured dec R succ None None c t outcome accept js =
+    run_test_instance R succ None (resolved_policy dec None None c t) outcome accept js.
+Proof. exact run_unforced. Qed.
+Print Assumptions C07_unforced_run.
 
 (* what the command line builds is RetryPolicy::new_without_delay n: n retries, no delay *)
 Theorem C07_cli_no_delay : forall n k, (k < N.to_nat n)%nat ->
@@ -139,11 +186,14 @@ Theorem C07_cut_short_only_by_cancel : forall delay evs,
 Proof. exact cut_short_only_by_cancel. Qed.
 Print Assumptions C07_cut_short_only_by_cancel.
 
-(* ... and without a cancellation it does expire once the delay has elapsed in unpaused time;
-   with debounced Stop requests the PausableSleep never panics. *)
+(* ... and without a cancellation, with debounced Stop requests, once the delay has elapsed in
+   unpaused time and the run is not stopped the sleep branch is enabled: taking it ends the wait
+   (before that, a Stop can still pause a sleep whose deadline has already passed -- the select!
+   may take a queued request first). The PausableSleep never panics. *)
 Theorem C07_wait_expires : forall delay evs,
-  0 < delay -> stops_debounced false evs = true -> existsb is_cancel evs = false ->
-  delay <= active_time false evs -> wrun delay evs = Done Expired.
+  stops_debounced false evs = true -> existsb is_cancel evs = false ->
+  delay <= active_time false evs -> paused_after false evs = false ->
+  wrun delay (evs ++ [WFire]) = Done Expired.
 Proof. exact expires. Qed.
 Print Assumptions C07_wait_expires.
 
@@ -151,6 +201,32 @@ Theorem C07_wait_no_panic : forall delay evs,
   stops_debounced false evs = true -> wrun delay evs <> WPanicked.
 Proof. exact no_panic. Qed.
 Print Assumptions C07_wait_no_panic.
+
+(* The machine above is the retry-delay loop of the unit-timer model (Model/UnitTimers.v [dstep],
+   C12) whose Stop / Continue arms are not written by hand but regenerated from executor.rs on
+   every run (gen/GenPauseTable.v: t_delay_stop, t_delay_cont). For every table that passes the
+   finite certificate [dcert2] (Stop pauses both delay clocks and acknowledges, Continue resumes
+   them only if paused, a second Stop panics) the two machines agree -- on (remaining delay,
+   paused flag, done and how), or on having panicked -- after *every* event sequence, with no
+   assumption on the environment ... *)
+Theorem C07_delay_machines_agree : forall tbl, dcert2 tbl = true -> forall delay es,
+  wabs_out (drun tbl (dinit delay) es) = wrun delay (map wev es).
+Proof. exact machines_agree. Qed.
+Print Assumptions C07_delay_machines_agree.
+
+(* ... the table generated from the source passes it, so C07_not_sooner and
+   C07_cut_short_only_by_cancel are facts about the loop with the generated arms. *)
+Theorem C07_not_sooner_generated : forall delay es s o,
+  drun pause_table (dinit delay) es = Clocks.Ok (s, o) -> d_done s = true -> d_cancelled s = false ->
+  delay <= active_time false (map wev es).
+Proof. exact (generated_not_sooner pause_table delay_cert2). Qed.
+Print Assumptions C07_not_sooner_generated.
+
+Theorem C07_cut_short_generated : forall delay es s o,
+  drun pause_table (dinit delay) es = Clocks.Ok (s, o) -> d_done s = true -> d_cancelled s = true ->
+  existsb is_cancel (map wev es) = true.
+Proof. exact (generated_cut_short_only_by_cancel pause_table delay_cert2). Qed.
+Print Assumptions C07_cut_short_generated.
 
 (* ---- non-vacuity and regression witnesses (closed computations) *)
 Example C07_ex_exp_delays :
@@ -215,12 +291,42 @@ Example C07_ex_valid_policy :
 Proof. repeat split; vm_compute; reflexivity. Qed.
 
 (* the wait: 100 ns delay; 60 ns pass, stop, 500 ns pass while stopped, continue, 39 ns: still
-   waiting; one more ns: expired. A cancellation cuts it short. *)
+   waiting; one more ns: due, and the sleep branch ends it. A cancellation cuts it short. A Stop
+   taken after the deadline has passed but before the sleep branch still pauses the wait. *)
 Example C07_ex_wait :
   wrun 100 [Tick 60; WStop; Tick 500; WContinue; Tick 39] = Waiting 1 false
-  /\ wrun 100 [Tick 60; WStop; Tick 500; WContinue; Tick 39; WQuery; Tick 1] = Done Expired
+  /\ wrun 100 [Tick 60; WStop; Tick 500; WContinue; Tick 39; WFire] = Waiting 1 false
+  /\ wrun 100 [Tick 60; WStop; Tick 500; WContinue; Tick 39; WQuery; Tick 1; WFire] = Done Expired
   /\ active_time false [Tick 60; WStop; Tick 500; WContinue; Tick 39; WQuery; Tick 1] = 100
   /\ wrun 100 [Tick 60; WOtherCancel; Tick 500] = Done CutShort
   /\ wrun 100 [WStop; WShutdown] = Done CutShort
+  /\ wrun 100 [Tick 150; WStop; Tick 500; WFire] = Waiting 0 true
+  /\ wrun 100 [Tick 150; WStop; Tick 500; WFire; WContinue; WFire] = Done Expired
   /\ wrun 100 [WStop; WStop] = WPanicked /\ stops_debounced false [WStop; WStop] = false.
 Proof. repeat split; vm_compute; reflexivity. Qed.
+
+(* the same histories through the unit-timer model's loop with the generated arms *)
+Example C07_ex_generated_loop :
+  wabs_out (drun pause_table (dinit 100)
+                 [DTick 60; DReq RStop; DTick 500; DReq RContinue; DTick 39; DReq RGetInfo; DTick 1; DFire])
+  = Done Expired
+  /\ wabs_out (drun pause_table (dinit 100) [DTick 150; DReq RStop; DTick 500; DFire]) = Waiting 0 true
+  /\ wabs_out (drun pause_table (dinit 100) [DReq RStop; DReq RStop]) = WPanicked
+  /\ wabs_out (drun pause_table (dinit 100) [DTick 60; DReq (RShutdown Twice)]) = Done CutShort
+  /\ dcert2 pause_table = true.
+Proof. repeat split; vm_compute; reflexivity. Qed.
+
+(* NEXTEST_RETRIES=4 with --retries 1: the command line wins; a test that never passes, whose
+   own policy (whatever the configuration resolves: here decoded as 5 retries, exponential,
+   1 s, jitter) is replaced: 2 attempts, no delay *)
+Example C07_ex_forced :
+  clap_retries (Some 1) (Some 4) = Some 1 /\ clap_retries None (Some 4) = Some 4
+  /\ clap_retries None None = None
+  /\ forall c t,
+       let '(l, e) := run_configured (fun _ => Exponential 5 1000000000 true None) bool (fun b => b)
+                        (Some 1) (Some 4) c t (fun _ => false) (fun _ => true) (fun _ => (3, 4)) in
+       (map at_no l, map at_delay_before l, e) = ([1; 2], [0; 0], Finished).
+Proof.
+  split; [reflexivity|]. split; [reflexivity|]. split; [reflexivity|].
+  intros c t. vm_compute. reflexivity.
+Qed.
